@@ -24,6 +24,7 @@ Correspondence: acceptance and the multiset of error diagnostics (message) of th
 must equal `accepted` and the multiset of `category` of the model's violations."""
 import os
 import re
+import time
 
 import common
 import langgen
@@ -724,6 +725,15 @@ def jsonable(case):
 
 def evaluate(env, cases, name, model=True):
     recs = langrun.run_impl(env, name, [(c["id"], c["source"]) for c in cases], ["nn"])
+    # a case without a verdict is either a front-end crash (reproducible) or a harness binary that was
+    # being relinked by a concurrent build while this batch ran: run such cases once more, alone
+    missing = [c for c in cases if recs.get(c["id"]) is None or recs[c["id"]].get("accepted") is None]
+    if missing:
+        time.sleep(3)
+        again = langrun.run_impl(env, name + "_retry", [(c["id"], c["source"]) for c in missing], ["nn"])
+        for cid, r in again.items():
+            if r.get("accepted") is not None or recs.get(cid) is None:
+                recs[cid] = r
     mrecs = run_model(env, name, recs, [c["id"] for c in cases]) if model else {}
     out = []
     for c in cases:
